@@ -137,6 +137,31 @@ mod simd_blocks {
     }
 }
 
+// ---------------------------------------------------------------------------------------------- NEON block leaves
+// The real text of src/simd/neon.rs (import line redirected to the emulation of the 13 aarch64 items it uses, rule N1).
+// The block is its own 16-byte object: a read of a 17th byte is a Kani pointer-check failure.
+#[kani::proof]
+#[kani::unwind(17)]
+fn leaf_neon_name_block() {
+    let arr: [u8; 16] = kani::any();
+    let r = unsafe { crate::simd::kani_access::neon_name16(arr.as_ptr()) };
+    assert_eq!(r, first_not(&arr, spec_is_tchar));
+}
+#[kani::proof]
+#[kani::unwind(17)]
+fn leaf_neon_uri_block() {
+    let arr: [u8; 16] = kani::any();
+    let r = unsafe { crate::simd::kani_access::neon_uri16(arr.as_ptr()) };
+    assert_eq!(r, first_not(&arr, spec_is_uri));
+}
+#[kani::proof]
+#[kani::unwind(17)]
+fn leaf_neon_hval_block() {
+    let arr: [u8; 16] = kani::any();
+    let r = unsafe { crate::simd::kani_access::neon_hval16(arr.as_ptr()) };
+    assert_eq!(r, first_not(&arr, spec_is_hval));
+}
+
 // ---------------------------------------------------------------------------------------------- the cursor (src/iter.rs)
 /// A buffer of ANY length up to MAXLEN with unconstrained contents: ONE heap object of symbolic size.  MAXLEN = 2^46 bytes
 /// (64 TiB) stays inside CBMC's pointer-offset width under Kani's default 16 object bits; the cursor methods are loop-free,
